@@ -120,6 +120,9 @@ type Env struct {
 
 	started, returned atomic.Int64
 	QuiesceTimeout    time.Duration
+	// timers: the client runs with MaxResponseTime > 0, so a timer goroutine may be between resolving a
+	// request and resetting its stream ((*Ctx).fireTimeout); quiescence then also needs no such goroutine
+	timers bool
 }
 
 // NewEnv configures a HostClient for HTTP/2 over in-memory TLS connections to
@@ -128,7 +131,7 @@ func NewEnv(opts http2.ClientOpts, plan ...ConnPlan) (*Env, error) {
 	if len(plan) == 0 {
 		plan = []ConnPlan{{}}
 	}
-	e := &Env{Plan: plan, QuiesceTimeout: 10 * time.Second}
+	e := &Env{Plan: plan, QuiesceTimeout: 10 * time.Second, timers: opts.MaxResponseTime > 0}
 	e.HC = &fasthttp.HostClient{Addr: "example.com:443", IsTLS: true, TLSConfig: &tls.Config{InsecureSkipVerify: true, ServerName: "example.com"},
 		Dial: e.dial, MaxIdemponentCallAttempts: 1}
 	if err := http2.ConfigureClient(e.HC, opts); err != nil {
@@ -779,13 +782,18 @@ func (e *Env) Quiesce() (bool, string) {
 // connection and queueing the request), by looking at the goroutine dump.
 func (e *Env) callersParked(s envSnap) bool {
 	inflight := s.started - s.returned
-	if inflight == 0 {
+	if inflight == 0 && !e.timers {
 		return true
 	}
 	buf := make([]byte, 1<<20)
 	n := runtime.Stack(buf, true)
 	waiting := int64(0)
 	for _, g := range strings.Split(string(buf[:n]), "\n\n") {
+		if strings.Contains(g, "http2.(*Ctx).fireTimeout") {
+			// a request timer is at work: the caller may already have its error while the RST_STREAM
+			// for the stream is not queued yet (seen as a non-reproducible "starved" under load)
+			return false
+		}
 		if !strings.Contains(g, "(*Client).RoundTrip") {
 			continue
 		}
